@@ -157,6 +157,7 @@ func init() {
 					{Name: "tiny-d3b2", Cfgs: tinyCfgs(), Keys: keysAB, Alpha: tinyAlphabet, Depth: 3, Dev: 2, Run: runC01},
 					{Name: "tiny-d4b2", Cfgs: bothPools(defaultCfg), Keys: keysAB, Alpha: tinyAlphabet, Depth: 4, Dev: 2, Run: runC01},
 					{Name: "block-d3b2", Cfgs: bothPools(blockCfg()), Keys: keysAB, Alpha: blockAlphabet, Depth: 3, Dev: 2, Run: runC01},
+					deleteBatchLevel(runC01, 3),
 				})
 			}
 			bt := blockCfg()
